@@ -98,6 +98,16 @@ class Typed:
     def numel(self, v):
         return int(np.prod(self.shapes[v])) if self.shapes[v] else 1
 
+    def ancestors(self, v):
+        """All values (incl. leaves) that v is computed from, transitively (v excluded)."""
+        seen, stack = set(), list(self.operands[v])
+        while stack:
+            a = stack.pop()
+            if a not in seen:
+                seen.add(a)
+                stack.extend(self.operands[a])
+        return seen
+
     def live_ops(self, outputs):
         """Indices of ops that are ancestors of ``outputs``."""
         live, stack = set(), list(outputs)
